@@ -19,7 +19,7 @@
 mod proofs;
 
 use celestia_proto::celestia::core::v1::proof::{
-    NmtProof as RawNmtProof, Proof as RawMerkleProof, RowProof as RawRowProof, ShareProof as RawShareProof,
+    Proof as RawMerkleProof, RowProof as RawRowProof, ShareProof as RawShareProof,
 };
 use celestia_types::hash::Hash;
 use celestia_types::nmt::NamespacedHashExt;
@@ -46,6 +46,37 @@ fn flip(h: &H32, byte: usize, bit: u8) -> H32 {
 
 // =====================================================================================
 // part 1: MerkleProof
+
+/// Largest power of two strictly below n (n >= 2), without overflow for n > 2^63.
+fn split(n: usize) -> usize {
+    let mut k = 1usize;
+    while k <= (n - 1) / 2 {
+        k *= 2;
+    }
+    k
+}
+
+/// RFC-6962 recomputation of the root from (leaf, index, total, aunts); `None` when
+/// index >= total, total == 0 or the number of aunts does not fit.  (Same definition as
+/// `lv_core::oracle::root_from_path`, safe for totals up to usize::MAX.)
+fn root_from_path(leaf: &[u8], index: usize, total: usize, aunts: &[H32]) -> Option<H32> {
+    fn go(lh: H32, index: usize, total: usize, aunts: &[H32]) -> Option<H32> {
+        if total == 0 || index >= total {
+            return None;
+        }
+        if total == 1 {
+            return if aunts.is_empty() { Some(lh) } else { None };
+        }
+        let (last, rest) = aunts.split_last()?;
+        let k = split(total);
+        if index < k {
+            Some(oracle::inner_hash(&go(lh, index, k, rest)?, last))
+        } else {
+            Some(oracle::inner_hash(last, &go(lh, index - k, total - k, rest)?))
+        }
+    }
+    go(oracle::leaf_hash(leaf), index, total, aunts)
+}
 
 #[derive(Clone)]
 struct M {
@@ -80,7 +111,7 @@ fn m_from_json(c: &Value) -> (M, String, bool) {
 /// One evaluation of the real `MerkleProof::verify`.
 fn eval_m(m: &M, family: &str, honest: bool, key: u64, rep: &mut Report) {
     let valid = oracle::leaf_hash(&m.leaf) == m.leaf_hash
-        && oracle::root_from_path(&m.leaf, m.index, m.total, &m.aunts) == Some(m.root);
+        && root_from_path(&m.leaf, m.index, m.total, &m.aunts) == Some(m.root);
     if honest && !valid {
         machinery_error("C13", &format!("oracle rejects its own honest merkle proof: {}", m_json(m, family, honest)));
     }
@@ -90,7 +121,10 @@ fn eval_m(m: &M, family: &str, honest: bool, key: u64, rep: &mut Report) {
     // cheap leaf-hash comparison passes and the case is not the honest proof itself
     let nontrivial = !honest && oracle::leaf_hash(&m.leaf) == m.leaf_hash;
     let class = match &got {
-        Err(_) => format!("merkle:panic:{family}"),
+        Err(p) => {
+            rep.extra(&format!("panic_message:merkle:{family}"), json!(p));
+            format!("merkle:panic:{family}")
+        }
         Ok(Ok(())) if honest => "merkle:accept:honest".to_string(),
         Ok(Ok(())) if valid => format!("merkle:accept:still-valid-by-recomputation:{family}"),
         Ok(Ok(())) => format!("merkle:accept:INVALID:{family}"),
@@ -124,9 +158,10 @@ fn eval_m(m: &M, family: &str, honest: bool, key: u64, rep: &mut Report) {
             format!("honest proof index={} total={} rejected: {e}", m.index, m.total),
             m_json(m, family, honest),
         ),
-        Err(p) if honest => rep.violation(
-            "honest-merkle-proof-rejected",
-            format!("honest proof index={} total={} panicked: {p}", m.index, m.total),
+        // values a decoded proof can carry (RawMerkleProof has i64 fields, total >= 1)
+        Err(p) if m.total >= 1 && m.total <= i64::MAX as usize && m.index <= i64::MAX as usize => rep.violation(
+            "merkle-proof-verify-panics",
+            format!("MerkleProof::verify panicked instead of returning an error (index={} total={}, family {family}): {p}", m.index, m.total),
             m_json(m, family, honest),
         ),
         _ => {}
@@ -331,7 +366,7 @@ fn rawm_ok(p: &RawMerkleProof, leaf: &[u8], root: &H32) -> bool {
     }
     let aunts: Vec<H32> = p.aunts.iter().map(|a| h32(a)).collect();
     oracle::leaf_hash(leaf)[..] == p.leaf_hash[..]
-        && oracle::root_from_path(leaf, p.index as usize, p.total as usize, &aunts) == Some(*root)
+        && root_from_path(leaf, p.index as usize, p.total as usize, &aunts) == Some(*root)
 }
 
 /// Oracle for a row proof: the statement's count/span rule and RFC-6962 recomputation.
@@ -374,7 +409,10 @@ fn eval_row(raw: &RawRowProof, root: &Option<H32>, family: &str, must_reject: bo
         Ok(Ok(p)) => guard(|| p.verify(hash)).map(|r| r.map_err(|e| e.to_string())),
     };
     let class = match &got {
-        Err(_) => format!("row:panic:{family}"),
+        Err(p) => {
+            rep.extra(&format!("panic_message:row:{family}"), json!(p));
+            format!("row:panic:{family}")
+        }
         Ok(Ok(())) if honest => "row:accept:honest".to_string(),
         Ok(Ok(())) if valid => format!("row:accept:valid-not-demanded-to-fail:{family}"),
         Ok(Ok(())) => format!("row:accept:INVALID:{family}"),
@@ -403,9 +441,9 @@ fn eval_row(raw: &RawRowProof, root: &Option<H32>, family: &str, must_reject: bo
             format!("honest row proof {}..={} rejected: {e}", raw.start_row, raw.end_row),
             row_json(raw, root, family, must_reject, honest),
         ),
-        Err(p) if honest => rep.violation(
-            "honest-row-proof-rejected",
-            format!("honest row proof {}..={} panicked: {p}", raw.start_row, raw.end_row),
+        Err(p) => rep.violation(
+            "row-proof-verify-panics",
+            format!("RowProof::verify panicked instead of returning an error (rows {}..={}, family {family}): {p}", raw.start_row, raw.end_row),
             row_json(raw, root, family, must_reject, honest),
         ),
         _ => {}
@@ -601,10 +639,6 @@ fn eval_share(sq: &Square, seed: u64, raw: &RawShareProof, root: &H32, family: &
     if honest && !truth {
         machinery_error("C13", &format!("ground truth refuses the honest share proof (k={}, family {family})", sq.k));
     }
-    if must_reject && truth {
-        rep.case(key, &format!("share:noop-mutation:{family}"), false);
-        return;
-    }
     let decoded = guard(|| ShareProof::try_from(raw.clone()));
     let got: Result<Result<(), String>, String> = match decoded {
         Err(p) => Err(p),
@@ -612,8 +646,12 @@ fn eval_share(sq: &Square, seed: u64, raw: &RawShareProof, root: &H32, family: &
         Ok(Ok(p)) => guard(|| p.verify(Hash::Sha256(*root))).map(|r| r.map_err(|e| e.to_string())),
     };
     let class = match &got {
-        Err(_) => format!("share:panic:{family}"),
+        Err(p) => {
+            rep.extra(&format!("panic_message:share:{family}"), json!(p));
+            format!("share:panic:{family}")
+        }
         Ok(Ok(())) if honest => "share:accept:honest".to_string(),
+        Ok(Ok(())) if must_reject => format!("share:accept:ALTERED:{family}"),
         Ok(Ok(())) if truth => format!("share:accept:true-claim:{family}"),
         Ok(Ok(())) => format!("share:accept:FALSE-CLAIM:{family}"),
         Ok(Err(e)) if e.starts_with("decode") => format!("share:reject-at-decode:{family}"),
@@ -625,6 +663,16 @@ fn eval_share(sq: &Square, seed: u64, raw: &RawShareProof, root: &H32, family: &
                              "ranges": raw.share_proofs.iter().map(|p| [p.start, p.end]).collect::<Vec<_>>(), "result": class}));
     }
     match got {
+        Ok(Ok(())) if must_reject => rep.violation(
+            &format!("share-proof-accepted-altered:{family}"),
+            format!(
+                "ShareProof::verify accepted {} shares over {} rows (k={}) although the proof was altered (family {family}; ground truth of the claim: {truth})",
+                raw.data.len(),
+                raw.share_proofs.len(),
+                sq.k
+            ),
+            share_json(raw, root, sq.k, seed, family, must_reject, honest),
+        ),
         Ok(Ok(())) if !truth => rep.violation(
             &format!("share-proof-accepted-false-claim:{family}"),
             format!(
@@ -640,9 +688,9 @@ fn eval_share(sq: &Square, seed: u64, raw: &RawShareProof, root: &H32, family: &
             format!("honest share proof (k={}, {} shares) rejected: {e}", sq.k, raw.data.len()),
             share_json(raw, root, sq.k, seed, family, must_reject, honest),
         ),
-        Err(p) if honest => rep.violation(
-            "honest-share-proof-rejected",
-            format!("honest share proof (k={}, {} shares) panicked: {p}", sq.k, raw.data.len()),
+        Err(p) => rep.violation(
+            "share-proof-verify-panics",
+            format!("ShareProof::verify panicked instead of returning an error (k={}, {} shares, family {family}): {p}", sq.k, raw.data.len()),
             share_json(raw, root, sq.k, seed, family, must_reject, honest),
         ),
         _ => {}
@@ -704,7 +752,11 @@ fn share_cases(sq: &Square, seed: u64, ns: &[u8; NS], other_ns: &[u8; NS], s: us
     let mut run = |fam: &str, x: usize, y: usize, must: bool, f: &dyn Fn(&mut RawShareProof) -> bool, rep: &mut Report| {
         let mut m = honest.clone();
         if f(&mut m) {
-            eval_share(sq, seed, &m, &root, fam, must, false, key(fam, x, y), rep);
+            if m == honest {
+                rep.case(key(fam, x, y), &format!("share:noop-mutation:{fam}"), false);
+            } else {
+                eval_share(sq, seed, &m, &root, fam, must, false, key(fam, x, y), rep);
+            }
         }
     };
     // proven shares
@@ -914,7 +966,7 @@ fn main() {
                 "payload bytes (leaves, share contents) come from VERIF_SEED; the properties do not depend on them (SHA-256 collision resistance assumed: an altered node is expected to change the recomputed root)",
                 "merkle: a mutated `total` (or index+total) for which the RFC-6962 recomputation still yields the root (same tree shape along the path, e.g. leaf 0 of 3 with total 4) is accepted by any verifier that only sees (leaf, index, total, aunts, root); such cases are classed accept:still-valid-by-recomputation and are not violations",
                 "row/share: the proofs' merkle indices are not tied to start_row (span shifted, pairs reversed, a column root with its own inclusion proof): the statement does not demand failure; recorded as observations (accept:valid-not-demanded-to-fail / accept:true-claim)",
-                "a panic of verify on values that cannot be decoded from the wire (total 0 or > i64::MAX, set through the public fields) is counted as a refusal, not as a violation of this property",
+                "a panic of any verify function is a violation (…-verify-panics), except MerkleProof::verify on values that cannot be decoded from the wire (total 0 or > i64::MAX, only reachable by writing the public fields), which is counted as a refusal",
                 "the repo has no ShareProof prover: proofs are built by the harness' own NMT prover and must first agree with nmt-rs' sibling list and be accepted (self-check)",
             ],
             required_classes: &[
